@@ -736,7 +736,9 @@ func TestC12BindInitiator(t *testing.T) {
 				assigned, _ = local.WithResource("srv-" + rapid.SampledFrom(resourceBits).Draw(rt, "srvres"))
 			}
 		}
-		desc := fmt.Sprintf("bind initiator local=%s policy=%s assigned=%s", local, policy, assigned)
+		// the assigned address in any of the spellings XML has for the same text
+		jidSpelling := gen.SpellText(rt, "jidtext", assigned.String())
+		desc := fmt.Sprintf("bind initiator local=%s policy=%s assigned=%s (written as %q)", local, policy, assigned, jidSpelling)
 		ev.Case(local.Resourcepart() != "" || policy != "result", desc, "bind-initiator", "bind-"+policy)
 		fail := func(format string, args ...any) {
 			rt.Helper()
@@ -756,7 +758,7 @@ func TestC12BindInitiator(t *testing.T) {
 				id, _ := request.Get("id")
 				switch policy {
 				case "result", "result-other":
-					return []byte(`<iq type="result" id="` + esc(id) + `"><bind xmlns="` + bindNS + `"><jid>` + esc(assigned.String()) + `</jid></bind></iq>`)
+					return []byte(`<iq type="result" id="` + esc(id) + `"><bind xmlns="` + bindNS + `"><jid>` + jidSpelling + `</jid></bind></iq>`)
 				case "error":
 					return []byte(`<iq type="error" id="` + esc(id) + `"><error type="cancel"><conflict xmlns="urn:ietf:params:xml:ns:xmpp-stanzas"/></error></iq>`)
 				case "wrongid":
